@@ -78,4 +78,13 @@ pub mod topic_model {
 macro_rules! aw {
     ($e:expr) => { $e };
 }
+/// the harness files of this crate (inside `worterbuch::h`, next to the private items of worterbuch.rs)
+macro_rules! wb_harnesses {
+    () => {
+        include!("/verif/kani/wb/src/h/c03.rs");
+        include!("/verif/kani/wb/src/h/c08.rs");
+        include!("/verif/kani/wb/src/h/c07.rs");
+        include!("/verif/kani/wb/src/h/probe.rs");
+    };
+}
 include!("/verif/kani/wb/src/body.rs");
